@@ -123,7 +123,7 @@ pub struct C05;
 fn text_bearing(k: &OpKind) -> bool {
   match k {
     OpKind::Source | OpKind::Rope | OpKind::Buffer | OpKind::Size | OpKind::ToWriter { .. } => true,
-    OpKind::CloneThen { then } | OpKind::ChildFault { then, .. } => text_bearing(then),
+    OpKind::CloneThen { then, .. } | OpKind::ChildFault { then, .. } => text_bearing(then),
     _ => false,
   }
 }
@@ -167,6 +167,7 @@ fn gen_observer(rng: &mut Rng, text: &str, ascii: bool, prev: &[ReplCall]) -> Op
     };
     OpKind::CloneThen {
       then: Box::new(then),
+      orphan: None,
     }
   } else {
     base(rng)
@@ -332,7 +333,7 @@ pub fn check_case(case: &C05Case, keep_trace: bool) -> C05Result {
           continue;
         }
         let kind_inner = match &op.kind {
-          OpKind::CloneThen { then } => {
+          OpKind::CloneThen { then, .. } => {
             counters.inc("probe:clone_observed");
             (**then).clone()
           }
@@ -509,6 +510,17 @@ impl C05 {
       });
     }
     let knobs = Knobs::draw(&mut rng);
+    {
+      // orphaned clones (own PRNG stream; the case population is unchanged)
+      let mut r = rng.fork(7);
+      for ph in phases.iter_mut() {
+        for th in ph.threads.iter_mut() {
+          for k in th.iter_mut() {
+            crate::conc::orphan_clone(k, &mut r);
+          }
+        }
+      }
+    }
     C05Case {
       kind: "replace".into(),
       inner,
@@ -616,7 +628,7 @@ fn case_shrinks(c: &C05Case) -> Vec<C05Case> {
         }
       }
       for i in 0..c.phases[p].threads[t].len() {
-        if let OpKind::CloneThen { then } = &c.phases[p].threads[t][i] {
+        if let OpKind::CloneThen { then, .. } = &c.phases[p].threads[t][i] {
           let mut x = c.clone();
           x.phases[p].threads[t][i] = (**then).clone();
           out.push(reset(x));
